@@ -158,9 +158,6 @@ Proof.
 Qed.
 
 (* ------------------------------------------------------------------ dead states stay dead *)
-Lemma flow_post_dead c g d : match fst (flow c P_Post g d) with P_Post | P_Abort _ => True | _ => False end.
-Proof. destruct d as [t|ok|k|]; try destruct t; simpl; exact I. Qed.
-
 Lemma step_dead t c s e : dead s = true -> dead (fst (step_t t c s e)) = true.
 Proof.
   destruct s as [p b g be]. unfold dead. simpl.
@@ -175,24 +172,6 @@ Qed.
 Lemma stp_of_dead G c q a : dead q = true -> dead (stp_of G c q a) = true.
 Proof. unfold stp_of. apply step_dead. Qed.
 
-Lemma stp_x_dead G c q a : dead q = true -> dead (stp_x G c q a) = true.
-Proof.
-  unfold stp_x. intros H. destruct (known_dev c q a); [reflexivity|]. apply step_dead. exact H.
-Qed.
-
 (* the run of the model is the iteration of stp_of *)
 Lemma run_is_runs G c s w : run_from (gate_tab G c) c s w = runs (stp_of G c) s w.
 Proof. reflexivity. Qed.
-
-(* without a known deviating edge the cut automaton runs like the faithful one *)
-Lemma no_dev_same_run G c w : forall s,
-  uses_dev_from (gate_tab G c) c s w = false ->
-  runs (stp_x G c) s w = runs (stp_of G c) s w.
-Proof.
-  induction w as [|e w IH]; intros s H; [reflexivity|].
-  cbn [uses_dev_from] in H. apply orb_false_iff in H. destruct H as [H1 H2].
-  unfold runs. cbn [fold_left].
-  assert (E : stp_x G c s e = stp_of G c s e).
-  { unfold stp_x, stp_of. rewrite H1. reflexivity. }
-  rewrite E. apply IH. exact H2.
-Qed.
